@@ -32,6 +32,7 @@ PROP = {
         "an arithmetic error (overflow, division by zero, value not fitting the result column) can be raised by at most one clause of a "
         "single-table statement in generated cases: which failing sub-expression is reported, and whether rows that are joined away or cut "
         "off by LIMIT are evaluated, depends on plan and pipelining (SQL leaves evaluation order open)",
+        "x IN (list): the engine evaluates the list before x, the spec x first; generated list elements are columns and literals (they cannot fail)",
         "LIMIT/OFFSET are generated only under an ORDER BY over all output columns (otherwise the answer is not unique); under a partial "
         "ORDER BY the answer must be sorted under the spec comparator and equal as a multiset",
         "aggregate queries: select list and HAVING are expressions over the aggregate row (group keys, then aggregates; since repo "
@@ -41,6 +42,11 @@ PROP = {
         "FROM are modelled in their select-project form (SELECT items FROM f [WHERE w]) AS r, every output column typed; a statement "
         "over a derived table with a WHERE of its own is generated without clauses that can fail (the engine merges the two filters); "
         "CASE (searched and simple) is modelled, but not below a unary minus",
+        "LIKE matches by characters (a character = a UTF-8 lead byte and its continuation bytes; the engine does since repo 52d009a): "
+        "% any sequence, _ any one character, backslash makes the next character literal, a pattern ending in a lone backslash matches "
+        "nothing; texts are valid UTF-8 (they come from SQL string literals); generated patterns have 1-8 items over "
+        "{a, b, %, _, \\%, \\_, \\\\, \\a, €}, subjects 0-10 characters over {a, b, %, _, \\, €}, two thirds of the literal subjects are "
+        "instances of the pattern with at most one character changed",
         "string functions UPPER, LOWER, LENGTH, LTRIM, RTRIM and || are modelled on byte strings: letters are the ASCII letters "
         "(generated texts are ASCII; the engine maps non-ASCII letters by Unicode rules), LENGTH counts UTF-8 characters, the trims "
         "remove spaces only (since repo ba55ebb), NULL in gives NULL out (since repo ba327e3); CONCAT(), COALESCE, NULLIF and the "
